@@ -48,7 +48,7 @@ func cfg(tier string) tierCfg {
 	if tier == "thorough" {
 		return tierCfg{pairDFS: 600, pairRnd: 60, multiCases: 12000, multiDFS: 16, multiRnd: 16, tryErrDFS: 3, stressCases: 2000}
 	}
-	return tierCfg{pairDFS: 48, pairRnd: 8, multiCases: 500, multiDFS: 10, multiRnd: 10, tryErrDFS: 2, stressCases: 20}
+	return tierCfg{pairDFS: 40, pairRnd: 8, multiCases: 400, multiDFS: 10, multiRnd: 10, tryErrDFS: 2, stressCases: 20}
 }
 
 func (Prop) Plan(tier string) []lib.Workload {
